@@ -554,4 +554,86 @@ Section Put.
       + destruct (OLD j n Hn) as [n' [E1 [_ [E3 E4]]]]. exists j, n'. split; [apply (leaves_tins (nbp h) (nkey h)); auto|].
         split; auto. unfold kv_of. now rewrite E3, E4.
   Qed.
+
+  (** ** Put of a held key: the value is replaced *)
+  Lemma put_update : forall t r rn c T k v ln, PInvN t r rn c T ->
+    nth_error (pheap t) (tsearch (pheap t) k T) = Some ln -> n_key ln = k ->
+    exists t', p_put t k v = ROk t' /\ PInv t' /\
+      forall e, In e (p_contents t') <-> e = (k, v) \/ (In e (p_contents t) /\ fst e <> k).
+  Proof.
+    intros t r rn c T k v ln I Hl EK. pose proof I as I0. destruct I.
+    set (h := pheap t) in *. set (j0 := tsearch h k T) in *.
+    assert (J0 : In j0 (leaves T)) by apply tsearch_in.
+    set (ln' := {| n_bp := n_bp ln; n_key := n_key ln; n_val := v; n_left := n_left ln; n_right := n_right ln |}).
+    set (h2 := hset h j0 ln').
+    set (t' := {| psize := psize t; proot := Some r; pheap := h2 |}).
+    assert (Lj : (j0 < length h)%nat) by (apply nth_error_Some; congruence).
+    assert (PUT : p_put t k v = ROk t').
+    { unfold p_put. fold h. rewrite q_root0. rewrite (PInvN_search t r rn c T k I0). fold h j0.
+      cbn [rbind link]. unfold hget at 1. rewrite Hl. cbn [rbind].
+      rewrite (proj2 (keqb_eq _ _) EK). reflexivity. }
+    exists t'. split; [exact PUT|].
+    assert (AT : nth_error h2 j0 = Some ln') by (apply nth_hset_eq; exact Lj).
+    assert (OT : forall i, i <> j0 -> nth_error h2 i = nth_error h i) by (intros; apply nth_hset_neq; auto).
+    assert (OLD : forall i n, nth_error h i = Some n ->
+              exists n', nth_error h2 i = Some n' /\ same_shape n n' /\ n_key n' = n_key n /\ (i <> j0 -> n' = n)).
+    { intros i n Hi. destruct (Nat.eq_dec i j0) as [->|NE].
+      - rewrite Hl in Hi. injection Hi as <-. exists ln'. repeat split; auto. intros; contradiction.
+      - exists n. rewrite OT by auto. repeat split; auto. }
+    assert (BI : forall i, nbp h2 i = nbp h i).
+    { intros i. unfold nbp. destruct (nth_error h i) as [n|] eqn:E.
+      - destruct (OLD i n E) as [n' [E1 [[S1 _] _]]]. now rewrite E1.
+      - assert (nth_error h2 i = None) by (apply nth_error_None; unfold h2; rewrite hset_length; now apply nth_error_None).
+        now rewrite H. }
+    assert (KI : forall i, nkey h2 i = nkey h i).
+    { intros i. unfold nkey. destruct (nth_error h i) as [n|] eqn:E.
+      - destruct (OLD i n E) as [n' [E1 [_ [E3 _]]]]. now rewrite E1.
+      - assert (nth_error h2 i = None) by (apply nth_error_None; unfold h2; rewrite hset_length; now apply nth_error_None).
+        now rewrite H. }
+    destruct (OLD r rn q_rn0) as [rn2 [R1 [[S1 [S2 S3]] _]]].
+    assert (I2 : PInvN t' r rn2 c T).
+    { constructor; auto; simpl; try congruence.
+      - apply (rep_frame h); auto.
+        + intros i Hi. destruct (rep_valid _ _ _ _ q_rep0) as [VI _]. specialize (VI i Hi).
+          destruct (nth_error h i) as [n|] eqn:E; [|apply nth_error_None in E; lia].
+          destruct (OLD i n E) as [n' [E1 [SS _]]]. eauto.
+        + intros j Hj. destruct (rep_valid _ _ _ _ q_rep0) as [_ VL]. specialize (VL j Hj).
+          destruct (nth_error h j) as [n|] eqn:E; [|apply nth_error_None in E; lia].
+          destruct (OLD j n E) as [n' [E1 [[SS _] _]]]. eauto.
+      - apply (tbits_ext (nbp h) _ (nkey h)); auto.
+      - intros j Hj. rewrite KI. auto. }
+    split; [unfold PInv; simpl; eauto|].
+    intros e. rewrite (contents_In t' r rn2 c T e I2), (contents_In t r rn c T e I0). simpl. fold h. split.
+    - intros [j [n [Hj [Hn ->]]]]. destruct (Nat.eq_dec j j0) as [->|NJ].
+      + left. rewrite AT in Hn. injection Hn as <-. unfold kv_of, ln'. simpl. now rewrite EK.
+      + right. rewrite OT in Hn by auto. split; [eauto|]. simpl. intros EQ. apply NJ.
+        unfold j0. rewrite <- (key_unique t r rn c T j I0 Hj). fold h. unfold nkey. now rewrite Hn, EQ.
+    - intros [-> | [[j [n [Hj [Hn ->]]]] NK]].
+      + exists j0, ln'. repeat split; auto. unfold kv_of, ln'. simpl. now rewrite EK.
+      + assert (NJ : j <> j0).
+        { intros ->. rewrite Hl in Hn. injection Hn as <-. simpl in NK. contradiction. }
+        exists j, n. rewrite OT by auto. auto.
+  Qed.
+
+  (** ** Put preserves the invariant and has the effect of the specification *)
+  Theorem p_put_preserves : forall t k v, PInv t -> kvalid k ->
+    exists t', p_put t k v = ROk t' /\ PInv t' /\ p_contents t' = sput k v (p_contents t).
+  Proof.
+    intros t k v I KV. pose proof (PInv_sorted t I) as ST. unfold PInv in I.
+    destruct (proot t) as [r|] eqn:R.
+    - destruct I as [rn [c [T I]]].
+      assert (J0 : In (tsearch (pheap t) k T) (leaves T)) by apply tsearch_in.
+      destruct (rep_valid _ _ _ _ (q_rep _ _ _ _ _ I)) as [_ VL]. specialize (VL _ J0).
+      destruct (nth_error (pheap t) (tsearch (pheap t) k T)) as [ln|] eqn:Hl; [|apply nth_error_None in Hl; lia].
+      assert (EX : exists t', p_put t k v = ROk t' /\ PInv t' /\
+                 forall e, In e (p_contents t') <-> e = (k, v) \/ (In e (p_contents t) /\ fst e <> k)).
+      { destruct (list_eq_dec N.eq_dec (n_key ln) k) as [EK|NE].
+        - eapply put_update; eauto.
+        - eapply put_new; eauto. }
+      destruct EX as [t' [P [I' C]]]. exists t'. split; auto. split; auto.
+      apply sorted_ext; [now apply PInv_sorted | now apply sput_sorted |].
+      intros e. rewrite C. symmetry. now apply sput_In_iff.
+    - destruct (put_empty t k v R KV) as [t' [P [I' C]]]. exists t'. split; auto. split; auto.
+      rewrite C. unfold p_contents, p_tree. now rewrite R.
+  Qed.
 End Put.
